@@ -19,6 +19,27 @@ type Material struct {
 	CertPEM, KeyPEM [][]byte // index = generation (0 unused)
 	CertDER         [][]byte
 	Keys            []*ecdsa.PrivateKey
+	ChainDER        [][][]byte // chain material only: the DER certificates of generation g's certificate file, leaf first
+}
+
+// NewChainMaterial creates n "generations" that share ONE leaf certificate and ONE key and differ only in the rest of
+// the certificate file: generation 1 is the leaf alone, generation g > 1 is the leaf followed by g-1 further
+// certificates (intermediates of its own). An update from one to another changes what a client is sent without
+// changing the leaf or the key.
+func NewChainMaterial(n int) *Material {
+	base := NewMaterial(1)
+	m := &Material{CertPEM: make([][]byte, n+1), KeyPEM: make([][]byte, n+1), CertDER: make([][]byte, n+1), Keys: make([]*ecdsa.PrivateKey, n+1), ChainDER: make([][][]byte, n+1)}
+	for g := 1; g <= n; g++ {
+		m.KeyPEM[g], m.Keys[g], m.CertDER[g] = base.KeyPEM[1], base.Keys[1], base.CertDER[1]
+		m.ChainDER[g] = [][]byte{base.CertDER[1]}
+		m.CertPEM[g] = append([]byte{}, base.CertPEM[1]...)
+		for i := 1; i < g; i++ {
+			extra := NewMaterial(1) // a self-signed certificate of its own stands in for an intermediate
+			m.ChainDER[g] = append(m.ChainDER[g], extra.CertDER[1])
+			m.CertPEM[g] = append(m.CertPEM[g], extra.CertPEM[1]...)
+		}
+	}
+	return m
 }
 
 // NewMaterial creates n self-signed ECDSA P-256 certificates "gen-1".."gen-n". gen-1 (the pair the proxy starts with)
